@@ -158,6 +158,47 @@ def _psbt_taproot(sht, t, i, outs, leaf, ht, pre) -> str:
 
 
 # ------------------------------------------------------------------ implementation side
+def _real_preimage(t) -> str:
+    """The bytes the real code hands to its final hash (hash256 / the TapSighash tagged hash), observed by
+    wrapping that hash for the duration of the call; `ok bug` when `legacy` answers its constant without hashing."""
+    seen = []
+    if t[0] == "spec.bip341":
+        real = sig_hash.tagged_hash
+
+        def spy(tag, msg):
+            if tag == b"TapSighash":
+                seen.append(bytes(msg))
+            return real(tag, msg)
+        sig_hash.tagged_hash = spy
+    else:
+        real = sig_hash.hash256
+
+        def spy(msg):
+            seen.append(bytes(msg))
+            return real(msg)
+        sig_hash.hash256 = spy
+    try:
+        if t[0] == "spec.legacy":
+            r = sig_hash.legacy(unhx(t[1]), mk_tx(un_tx(t[2])), int(t[3]), int(t[4]))
+            if not seen:
+                return "ok bug" if r == b"\x01" + bytes(31) else "err no-hash"
+        elif t[0] == "spec.bip143":
+            sig_hash.segwit_v0(unhx(t[1]), mk_tx(un_tx(t[2])), int(t[3]), int(t[4]), int(t[5]))
+        else:
+            ext = unhx(t[6])
+            sig_hash.taproot(mk_tx(un_tx(t[1])), int(t[2]), [mk_out(o) for o in un_outs(t[3])], int(t[4]),
+                             int(bool(ext)), unhx(t[5]), ext)
+    except Exception as e:  # noqa: BLE001
+        c = common.err_class(e)
+        return "err " + (c if not c.startswith("foreign") else "foreign")
+    finally:
+        if t[0] == "spec.bip341":
+            sig_hash.tagged_hash = real
+        else:
+            sig_hash.hash256 = real
+    return "ok " + hx(seen[-1])
+
+
 def impl(line: str) -> str:  # noqa: PLR0911, PLR0912
     t = line.split(" ")
     op = t[0]
@@ -185,6 +226,8 @@ def impl(line: str) -> str:  # noqa: PLR0911, PLR0912
         def f():
             return sig_hash.from_tx(outs, tx, int(t[3]), int(t[4]), _pre(t[5], tx, outs), codesep_index=int(t[6]))
         return _digest(f)
+    if op in ("spec.legacy", "spec.bip143", "spec.bip341"):
+        return _real_preimage(t)
     if op == "strip":
         return _digest(sig_hash._without_op_codeseparators, unhx(t[1]))
     if op == "codefrom":
@@ -522,7 +565,16 @@ def _o_core_vector(w):
     return r == ("ok", bytes.fromhex(w["exp"])[::-1]), f"legacy -> {r}, Core says {w['exp']}"
 
 
+def _o_bip_vector(w):
+    """The real code on the published BIP143 / BIP341 examples."""
+    tx = mk_tx(un_tx(w["tx"]))
+    outs = [mk_out(o) for o in un_outs(w["outs"])]
+    r = _call(sig_hash.from_tx, outs, tx, w["i"], w["ht"], codesep_index=w.get("codesep", 0))
+    return r == ("ok", bytes.fromhex(w["exp"])), f"{w['name']}: from_tx -> {r}, the BIP says {w['exp']}"
+
+
 ORACLES = {
+    "bip.vectors": _o_bip_vector,
     "precomputed=direct": _o_precomputed,
     "declared-error.refused": _o_refused,
     "legacy.single-bug": _o_single_bug,
@@ -557,6 +609,76 @@ def s_core_vectors(ctx):
         ctx.check("core.sighash.json", {"raw": raw, "script": script, "i": i, "ht": ht, "exp": exp})
         lines.append(f"legacy {hx(bytes.fromhex(script))} {wire_tx_tok(Tx.parse(raw))} {i} {ht}")
     ctx.stream("legacy.core-vectors", lines)
+
+
+def s_bip_vectors(ctx):
+    """BIP143's examples and BIP341's key path wallet vectors (corpus/C09): real code = published digest (oracle),
+    btclib-shaped model = real code (stream), SPECIFICATION preimage / digest = the published bytes (stream whose
+    expected side is the BIP's number, not btclib's)."""
+    d = os.path.join(common.ROOT, "corpus", "C09")
+    lines, published = [], []
+    for v in json.load(open(os.path.join(d, "bip143_vectors.json")))["vectors"]:
+        tx = Tx.parse(v["tx"])
+        for k, x in v["script_sigs"].items():
+            tx.vin[int(k)].script_sig = bytes.fromhex(x)
+        for k, x in v["witnesses"].items():
+            tx.vin[int(k)].script_witness = Witness(x)
+        outs = tok_outs([(a, bytes.fromhex(x)) for a, x in v["utxos"]])
+        ctx.check("bip.vectors", {"name": "BIP143 " + v["name"], "tx": wire_tx_tok(tx), "outs": outs, "i": v["i"],
+                                  "ht": v["ht"], "codesep": v["codesep"], "exp": v["expected"]})
+        line = f"fromtx {outs} {wire_tx_tok(tx)} {v['i']} {v['ht']} 0 {v['codesep']}"
+        lines.append(line)
+        published.append((line, "ok " + v["expected"]))
+    k = json.load(open(os.path.join(d, "bip341_keypath_vectors.json")))
+    tx = Tx.parse(k["rawUnsignedTx"])
+    for x in tx.vin:
+        x.script_witness = Witness([b"\x00" * 64])   # a key path stack: one element, no annex
+    outs_l = [(u["amountSats"], bytes.fromhex(u["scriptPubKey"])) for u in k["utxosSpent"]]
+    outs = tok_outs(outs_l)
+    for sp in k["inputSpending"]:
+        i, ht = sp["txinIndex"], sp["hashType"]
+        ctx.check("bip.vectors", {"name": f"BIP341 key path input {i} type {ht}", "tx": wire_tx_tok(tx), "outs": outs,
+                                  "i": i, "ht": ht, "exp": sp["sigHash"]})
+        line = f"fromtx {outs} {wire_tx_tok(tx)} {i} {ht} 0 0"
+        lines.append(line)
+        published.append((line, "ok " + sp["sigHash"]))
+        published.append((f"spec.bip341 {wire_tx_tok(tx)} {i} {outs} {ht} _ _", "ok " + sp["sigMsg"]))
+    # BIP143 prints the preimage of its SIGHASH_SINGLE-past-the-last-output example
+    v = json.load(open(os.path.join(d, "bip143_vectors.json")))
+    if "preimages" in v:
+        for p in v["preimages"]:
+            published.append((f"spec.bip143 {p['sc']} {wire_tx_tok(Tx.parse(p['tx']))} {p['i']} {p['ht']} {p['amount']}",
+                              "ok " + p["preimage"]))
+    ctx.stream("bip-vectors.from_tx", lines)
+    ctx.correspond("bip-vectors.model=published", EXE, published)
+
+
+def s_spec_preimages(ctx):
+    """The specification's PREIMAGE BYTES against the bytes the real code hashes (observed at its final hash)."""
+    rng = ctx.rng
+    lines = []
+    for _ in range(ctx.n(600)):
+        t = g_tx(rng)
+        n = len(t["vin"])
+        i = rng.randrange(n)
+        r = rng.random()
+        if r < 0.35:
+            ht = g_ht32(rng)
+            if rng.random() < 0.5:
+                ht = (ht & ~0x9F) | rng.choice([1, 2, 3, 0x81, 0x82, 0x83])
+            lines.append(f"spec.legacy {hx(g_script(rng))} {tok_tx(t)} {i} {ht}")
+        elif r < 0.65:
+            ht = g_ht32(rng)
+            lines.append(f"spec.bip143 {hx(g_script(rng))} {tok_tx(t)} {i} {ht} {g_i64(rng)}")
+        else:
+            ht = rng.choice(SEVEN)
+            if (ht & 3) == 3 and i >= len(t["vout"]):
+                ht = 0x81
+            ext = rng.choice([b"", common.rand_bytes(rng, 32) + bytes([rng.choice([0, 1])]) +
+                              rng.getrandbits(32).to_bytes(4, "little")])
+            annex = rng.choice([b"", b"\x50", b"\x50" + common.rand_bytes(rng, 300)])
+            lines.append(f"spec.bip341 {tok_tx(t)} {i} {tok_outs(g_prevouts(rng, n))} {ht} {hx(annex)} {hx(ext)}")
+    ctx.stream("spec.preimage", lines)
 
 
 def s_scripts(ctx):
@@ -933,6 +1055,8 @@ def s_view_history(ctx):
 def run(ctx):
     shared.validate_hashes(ctx, EXE)
     s_core_vectors(ctx)
+    s_bip_vectors(ctx)
+    s_spec_preimages(ctx)
     s_scripts(ctx)
     s_legacy(ctx)
     s_segwit(ctx)
